@@ -292,7 +292,7 @@ fn gen(rng: &mut Rng, what: &str, round: usize) -> Scn {
     let mut prev = q;
     for i in 0..6 { prev[i] += rng.range(-0.3, 0.3); }
     match what {
-        "c06" => { if round % 2 == 0 { p.dof = 5; } if round % 4 == 1 { p.c4 = 0.0; } if round % 3 == 0 { p.offsets[4] = rng.range(-0.6, 0.6); }
+        "c06" => { if round % 2 == 0 { p.dof = 5; if round % 4 == 2 { p.sign_corrections[5] = 0; /* as the YAML / URDF loaders store it for a 5-DOF robot */ } } if round % 4 == 1 { p.c4 = 0.0; } if round % 3 == 0 { p.offsets[4] = rng.range(-0.6, 0.6); }
             if round % 5 == 3 {
                 // limits whose J6 range is not centred at zero + the CONSTRAINT_CENTERED sentinel: J6 stays the caller's previous J6
                 let mut f = [-3.0; 6]; let mut t = [3.0; 6]; f[5] = 0.2; t[5] = 0.6;
